@@ -4,13 +4,13 @@ from __future__ import annotations
 import ast
 
 from ..absint import new_interp, Interp, HList, HDict, HInst, NONE, const, is_const, fmt, fmt_seg, fmt_tree, mk_not
+from ..names import N
 from ..common import AnalysisError, Report
 from ..facts import facts
 from .. import nf
 
 MFILE = "python/gherkin/token_matcher.py"
 MQ = "gherkin.token_matcher.TokenMatcher"
-SINK = f"{MQ}._set_token_matched"
 KINDS = ["FeatureLine", "RuleLine", "BackgroundLine", "ScenarioLine", "ExamplesLine", "StepLine", "TableRow", "TagLine",
          "DocStringSeparator", "Language", "Comment", "Empty", "Other", "EOF"]
 
@@ -80,9 +80,9 @@ class MatcherNF:
         f = facts()
         self.cls = f.cls(cls_q)
         self.methods: dict[str, MethodNF] = {}
-        sink_fi = self.cls.find_method("_set_token_matched")
+        sink_fi = self.cls.find_method(N.SINK)
         if sink_fi is None:
-            raise AnalysisError("anchor vanished: TokenMatcher._set_token_matched (the single matched-token sink)")
+            raise AnalysisError("anchor vanished: the single matched-token sink of TokenMatcher")
         self.sink_q = sink_fi.qualname
         for k in KINDS:
             m = self.cls.find_method(f"match_{k}")
@@ -125,6 +125,7 @@ def _kw(m: MethodNF, line=None):
 def rule_sink(rep: Report, rid_col="C04.col", rid_crlf="C16.crlf", want=("col", "crlf", "fields")) -> None:
     """_set_token_matched: column = matched indent + 1; matched text loses trailing CR/LF; fields stored as given."""
     I = new_interp()
+    SINK = f"{MQ}.{N.SINK}"
     fi = I.facts.func(SINK)
     rep.used_file(fi.file)
     rep.used_function(fi.qualname)
@@ -263,7 +264,7 @@ def _returns_true_after(m: MethodNF, sink_node) -> bool:
 def line_terms(m: MethodNF):
     tok = m.tok
     line = ("attr", tok, "line")
-    return line, ("attr", line, "_trimmed_line_text"), ("attr", line, "_line_text")
+    return line, ("attr", line, N.TRIMMED), ("attr", line, N.RAW)
 
 
 TITLE_ROLES = {
@@ -330,7 +331,7 @@ def rule_roles(rep: Report, rid="C05.roles", rid_text="C03.text", cls_q=MQ, want
 def rule_keyword_types(rep: Report, rid="C05.types") -> None:
     """keyword_types: given->Context, when->Action, then->Outcome, and+but->Conjunction; unique category else 'Unknown'."""
     I = new_interp()
-    q = f"{MQ}._change_dialect"
+    q = f"{MQ}.{N.CHANGE_DIALECT}"
     fi = I.facts.func(q)
     rep.used_function(fi.qualname)
     tree, rv, st = I.run(q)
@@ -395,7 +396,7 @@ def rule_dialect_triple(rep: Report, rid="C05.triple") -> None:
                 if isinstance(n, ast.Attribute) and isinstance(n.ctx, (ast.Store, ast.Del)) and n.attr in group \
                         and isinstance(n.value, ast.Name) and n.value.id == "self":
                     writers[n.attr].add(fi.qualname)
-    cd = f"{MQ}._change_dialect"
+    cd = f"{MQ}.{N.CHANGE_DIALECT}"
     for a in sorted(group):
         rep.ob(rid, f"matcher attribute {a} is written only by _change_dialect", writers[a] == {cd}, file=MFILE, function=cd,
                expected=[cd], found=sorted(writers[a]))
@@ -436,7 +437,7 @@ def rule_dialect_triple(rep: Report, rid="C05.triple") -> None:
     tree, rv, st = I.run(rq)
     rep.used_function(rq)
     selft = ("param", rfi.params()[0])
-    default = ("attr", selft, "_default_dialect_name")
+    default = ("attr", selft, N.DEFAULT_DIALECT)
     calls = [(n, ctx) for n, ctx in nf.iter_nodes(tree) if n[0] == "change_dialect"]
     ok = False
     found = [(fmt(n[1][1], I) if len(n[1]) > 1 else None, [(fmt(a, I), p) for a, p in nf.guards_in_ctx(ctx)]) for n, ctx in calls]
@@ -453,7 +454,7 @@ def rule_dialect_triple(rep: Report, rid="C05.triple") -> None:
     for c in [cls]:
         for fi2 in c.methods.values():
             for n in ast.walk(fi2.node):
-                if isinstance(n, ast.Attribute) and isinstance(n.ctx, ast.Store) and n.attr == "_default_dialect_name":
+                if isinstance(n, ast.Attribute) and isinstance(n.ctx, ast.Store) and n.attr == N.DEFAULT_DIALECT:
                     w.add(fi2.name)
     rep.ob(rid, "the default dialect name is only set by the constructor", w == {"__init__"}, file=MFILE, function=MQ + ".__init__",
            expected=["__init__"], found=sorted(w))
@@ -542,8 +543,6 @@ def _activation_writes(m: MethodNF, sink_node, attrs):
     return w
 
 
-DS_ACTIVE = "_active_doc_string_separator"
-DS_INDENT = "_indent_to_remove"
 
 
 def rule_docstring_fsm(rep: Report, rid="C13.fsm", cls_q=MQ, openers=('"""', "```"), only_text=False) -> None:
@@ -554,7 +553,7 @@ def rule_docstring_fsm(rep: Report, rid="C13.fsm", cls_q=MQ, openers=('"""', "``
     I = m.I
     rep.used_function(m.fi.qualname)
     line, trimmed, raw = line_terms(m)
-    active = ("attr", m.selft, DS_ACTIVE)
+    active = ("attr", m.selft, N.DS_ACTIVE)
     opened = []
     closed = []
     for sn, ctx in m.sinks:
@@ -562,11 +561,11 @@ def rule_docstring_fsm(rep: Report, rid="C13.fsm", cls_q=MQ, openers=('"""', "``
         pol = [p for c, p in gs if c == active]
         tests = [(c, p) for c, p in gs if c[0] == "call" and c[1] == ".startswith"]
         a = sn[1]
-        w = _activation_writes(m, sn, (DS_ACTIVE, DS_INDENT))
+        w = _activation_writes(m, sn, (N.DS_ACTIVE, N.DS_INDENT))
         kw = _kw(m, sn[2])
         if not pol:
             rep.ob(rid, "every delimiter match is decided under a known open/closed state", False, **kw,
-                   expected=f"branch on self.{DS_ACTIVE}", found=[(fmt(c, I), p) for c, p in gs])
+                   expected=f"branch on self.{N.DS_ACTIVE}", found=[(fmt(c, I), p) for c, p in gs])
             continue
         pos = [c for c, p in tests if p]
         sep = pos[-1][2][1] if pos and len(pos[-1][2]) == 2 and pos[-1][2][0] == trimmed else None
@@ -579,18 +578,18 @@ def rule_docstring_fsm(rep: Report, rid="C13.fsm", cls_q=MQ, openers=('"""', "``
                 rep.ob(rid, f"opening delimiter {fmt(sep, I) if sep else '?'}: media type = rest of the trimmed line after the delimiter, stripped", ok, **kw,
                        expected=".strip(trimmed[len(delimiter):])", found=fmt(t, I) if t else None)
                 continue
-            ok = sep is not None and is_const(sep) and w.get(DS_ACTIVE) == sep and w.get(DS_INDENT) == ("attr", line, "indent")
+            ok = sep is not None and is_const(sep) and w.get(N.DS_ACTIVE) == sep and w.get(N.DS_INDENT) == ("attr", line, "indent")
             rep.ob(rid, f"closed state: a line starting with {fmt(sep, I) if sep else '?'} opens a doc string: that delimiter becomes active with the line's indent", ok, **kw,
-                   expected=f"{DS_ACTIVE} := delimiter, {DS_INDENT} := line.indent", found={k: fmt(v, I) for k, v in w.items()})
+                   expected=f"{N.DS_ACTIVE} := delimiter, {N.DS_INDENT} := line.indent", found={k: fmt(v, I) for k, v in w.items()})
             rep.ob(rid, "opening: token kind DocStringSeparator, keyword = the delimiter", a.get("matched_type") == const("DocStringSeparator") and a.get("keyword") == sep, **kw,
                    expected="DocStringSeparator, delimiter", found=(fmt(a.get("matched_type"), I), fmt(a.get("keyword"), I) if a.get("keyword") else None))
         else:
             closed.append(sep)
             if only_text:
                 continue
-            ok = sep == active and is_const(w.get(DS_ACTIVE), None) and is_const(w.get(DS_INDENT), 0)
+            ok = sep == active and is_const(w.get(N.DS_ACTIVE), None) and is_const(w.get(N.DS_INDENT), 0)
             rep.ob(rid, "open state: only the active delimiter is tested, and a match clears the delimiter and the indent to remove", ok, **kw,
-                   expected=f"startswith(active); {DS_ACTIVE} := None, {DS_INDENT} := 0",
+                   expected=f"startswith(active); {N.DS_ACTIVE} := None, {N.DS_INDENT} := 0",
                    found={"tested": fmt(sep, I) if sep else None, **{k: fmt(v, I) for k, v in w.items()}})
             rep.ob(rid, "closing: token kind DocStringSeparator, keyword = the active delimiter", a.get("matched_type") == const("DocStringSeparator") and a.get("keyword") == active, **kw,
                    expected="DocStringSeparator, active delimiter", found=(fmt(a.get("matched_type"), I), fmt(a.get("keyword"), I) if a.get("keyword") else None))
@@ -602,7 +601,7 @@ def rule_docstring_fsm(rep: Report, rid="C13.fsm", cls_q=MQ, openers=('"""', "``
            expected=["active delimiter"], found=[fmt(s, I) if s else None for s in closed])
     # state writes happen only on matching paths: every write is dominated by a successful startswith test
     for n, ctx in nf.iter_nodes(m.tree):
-        if n[0] == "setattr" and n[1] == m.selft and n[2] in (DS_ACTIVE, DS_INDENT):
+        if n[0] == "setattr" and n[1] == m.selft and n[2] in (N.DS_ACTIVE, N.DS_INDENT):
             gs = nf.guards_in_ctx(ctx)
             ok = any(c[0] == "call" and c[1] == ".startswith" and p for c, p in gs)
             rep.ob(rid, f"{n[2]} changes only when a delimiter line was matched", ok, **_kw(m, n[4]),
@@ -613,7 +612,7 @@ def rule_docstring_own(rep: Report, rid="C13.own") -> None:
     """The delimiter/indent fields are written only by the delimiter matcher and reset() - no other match_* touches them."""
     f = facts()
     base = f.cls(MQ)
-    allowed = {"_match_DocStringSeparator", "match_DocStringSeparator", "reset", "__init__"}
+    allowed = {N.DS_MATCH, "match_DocStringSeparator", "reset", "__init__"}
     n = 0
     for m in f.modules.values():
         if m.name == "gherkin.inout":
@@ -621,14 +620,14 @@ def rule_docstring_own(rep: Report, rid="C13.own") -> None:
         for c in m.classes.values():
             for fi in c.methods.values():
                 for node in ast.walk(fi.node):
-                    if isinstance(node, ast.Attribute) and node.attr in (DS_ACTIVE, DS_INDENT) and isinstance(node.ctx, (ast.Store, ast.Del)):
+                    if isinstance(node, ast.Attribute) and node.attr in (N.DS_ACTIVE, N.DS_INDENT) and isinstance(node.ctx, (ast.Store, ast.Del)):
                         n += 1
                         ok = base in c.mro() and fi.name in allowed
                         rep.ob(rid, f"{node.attr} is written only by the delimiter matcher and reset()", ok, file=fi.file, line=node.lineno,
                                function=fi.qualname, expected=sorted(allowed), found=fi.name)
         for fi in m.functions.values():
             for node in ast.walk(fi.node):
-                if isinstance(node, ast.Attribute) and node.attr in (DS_ACTIVE, DS_INDENT) and isinstance(node.ctx, (ast.Store, ast.Del)):
+                if isinstance(node, ast.Attribute) and node.attr in (N.DS_ACTIVE, N.DS_INDENT) and isinstance(node.ctx, (ast.Store, ast.Del)):
                     rep.ob(rid, f"{node.attr} is written only by the delimiter matcher and reset()", False, file=fi.file, line=node.lineno,
                            function=fi.qualname, expected=sorted(allowed), found=fi.name)
     rep.floor("doc string state write sites", n, 2)
@@ -642,8 +641,8 @@ def rule_other_text(rep: Report, rid="C13.text", cls_q=MQ, openers=('"""', "```"
     I = m.I
     rep.used_function(m.fi.qualname)
     line, trimmed, raw = line_terms(m)
-    ind = ("attr", m.selft, DS_INDENT)
-    active = ("attr", m.selft, DS_ACTIVE)
+    ind = ("attr", m.selft, N.DS_INDENT)
+    active = ("attr", m.selft, N.DS_ACTIVE)
     C = ("bool", "or", (("cmp", "Lt", ind, const(0)), ("cmp", "Gt", ind, ("attr", line, "indent"))))
     rep.eq(rid, "match_Other reports every line, unconditionally, exactly once", 1, len(m.sinks), **_kw(m))
     for sn, ctx in m.sinks:
@@ -761,7 +760,7 @@ def rule_reset(rep: Report, rid="C15.reset", classes=(MQ, "gherkin.token_matcher
         rfi = cls.find_method("reset")
         if rfi is None:
             raise AnalysisError(f"anchor vanished: {cq}.reset")
-        cd = f"{MQ}._change_dialect"
+        cd = f"{MQ}.{N.CHANGE_DIALECT}"
 
         def cd_intrinsic(I_, st_, fi_, args, kwargs, n, tree_):
             tree_.append(("change_dialect", tuple(args), getattr(n, "lineno", None)))
